@@ -341,6 +341,36 @@ func genC09(g *GenCtx) {
 		g.Op("has r %d", p)
 		g.Op("has r %d", p+2)
 	}
+	// fixed: the accept queue (128) is full when further tubes are requested: they are refused whole
+	// (no tube, no answer), and a later retransmission of the request - after the application has
+	// accepted something - opens and offers the tube exactly once
+	for _, fl := range []string{"QLA", "Q"} {
+		rel := "r"
+		if fl == "Q" {
+			rel = "u"
+		}
+		g.Op("new 1")
+		for id := 0; id < 131; id++ {
+			g.Op("raw %s", HexOrDash(muxh.Init(byte(id), fl, byte(1+id%7))))
+		}
+		for _, id := range []int{0, 127, 128, 129, 130} {
+			g.Op("has %s %d", rel, id)
+		}
+		g.Op("raw %s", HexOrDash(muxh.Init(129, fl, 3))) // retransmission while the queue is still full
+		g.Op("has %s 129", rel)
+		for i := 0; i < 3; i++ {
+			g.Op("accept")
+		}
+		g.Op("raw %s", HexOrDash(muxh.Init(129, fl, 3))) // … and after room was made
+		g.Op("raw %s", HexOrDash(muxh.Init(129, fl, 3)))
+		g.Op("has %s 129", rel)
+		for i := 0; i < 128; i++ {
+			g.Op("accept")
+		}
+		g.Op("accept")
+		g.Op("has %s 128", rel)
+		g.Op("has %s 130", rel)
+	}
 	// fixed: stragglers during the reservation (the theorem C09_late_in_reservation's witness)
 	for p := 0; p < 2; p++ {
 		g.Op("new %d", p)
